@@ -77,7 +77,7 @@ structure World where
   names : AMap (Addr × Addr) := []
   /-- the view of the last committed block (`GetInitialData`: the trie only) -/
   namesInit : AMap (Addr × Addr) := []
-deriving Repr, Inhabited
+deriving DecidableEq, Repr, Inhabited
 
 /-- name key of the contract-owner record `registerOwner(scs, "aergo.name", …)` -/
 def nAergoName : Nat := 0
@@ -346,19 +346,18 @@ structure Pend where
   dels : List Nat := []
 deriving Repr, Inhabited
 
-def Pend.isEmpty (p : Pend) : Bool := p.creator.isNone && p.sets.isEmpty && p.dels.isEmpty
-
 def applyWrites (m : AMap Nat) (sets : List (Nat × Nat)) (dels : List Nat) : AMap Nat :=
   dels.foldl mdel (sets.foldl (fun m kv => mset m kv.1 kv.2) m)
 
-/-- the writes of `p` become visible in contract `a`'s storage -/
+/-- the writes of `p` become visible in contract `a`'s storage (a write that changes nothing leaves
+the world as it is) -/
 def World.write (w : World) (a : Addr) (p : Pend) : World :=
-  if p.isEmpty then w else
-  { w with
-    stor := mset w.stor a (applyWrites ((mget w.stor a).getD []) p.sets p.dels)
-    creator := match p.creator with
-      | some x => mset w.creator a x
-      | none => w.creator }
+  let old := (mget w.stor a).getD []
+  let m := applyWrites old p.sets p.dels
+  let w1 := if m = old then w else { w with stor := mset w.stor a m }
+  match p.creator with
+  | some x => if mget w1.creator a = some x then w1 else { w1 with creator := mset w1.creator a x }
+  | none => w1
 
 /-- `statedb.StageContractState` after a successful call -/
 def World.stage (w : World) (a : Addr) (p : Pend) : World :=
@@ -391,8 +390,8 @@ structure ExecOut where
   w : World
   fee : Nat
   err : Option Err
-  /-- the balance-for-fee check failed *after* the VM had written a third-party account or a storage
-      object shared with the block's cache: those writes survive the ERROR receipt -/
+  /-- the balance-for-fee check failed *after* the VM had changed a third-party account or a storage
+      object shared with the block's cache: those changes survive the ERROR receipt -/
   leak : Bool := false
   dirty : Bool := false
 deriving Inhabited
@@ -430,7 +429,7 @@ def execute (c : Ctx) (w : World) (tx : Tx) (snd rcv : Copy) (isFD : Bool) : Exe
             | .ok =>
               match runXfers snd.id rcv.id snd.cur rcv.cur w false tx.script.xfers with
               | .fail dirty => { snd, rcv, w, fee := base + tx.script.fee, err := some .runtime, dirty }
-              | .ok sa ra w' third =>
+              | .ok sa ra w' _ =>
                 let snd := { snd with cur := sa }
                 let rcv := { rcv with cur := ra }
                 let pend := { pend with sets := tx.script.sets, dels := tx.script.dels }
@@ -438,8 +437,8 @@ def execute (c : Ctx) (w : World) (tx : Tx) (snd rcv : Copy) (isFD : Bool) : Exe
                 let payer := if isFD then rcv else snd
                 if payer.cur.bal < fee then
                   let shared := w.cached.contains rcv.id
-                  { snd, rcv, w := if shared then w'.write rcv.id pend else w', fee, err := some .runtime
-                    leak := third || (shared && !pend.isEmpty) }
+                  let wl := if shared then w'.write rcv.id pend else w'
+                  { snd, rcv, w := wl, fee, err := some .runtime, leak := decide (wl ≠ w) }
                 else { snd, rcv, w := w'.stage rcv.id pend, fee, err := none }
 
 /-! ## governance -/
